@@ -10,7 +10,7 @@ EXTRA_IMPORTS = dispenv.DISP_IMPORTS
 RULE = ('request texts: (a) sample of the member-alphabet product jsonrpc(5) x id(13) x method(12) x params(15); arrays of 0..4 '
         '(quick) / 0..6 (thorough) mostly-valid elements; scalars; containers nested to 64 levels; (b) non-JSON texts: truncations '
         'at every token boundary, garbage, BOM, trailing data, NaN/Infinity, lone surrogate; (c) integer literals of 1..20000 digits '
-        'at top level, as id, inside params; each x dispatcher kind (sync/async) x max_batch_size in {None,0,1,n-1,n,n+1} x method '
+        'at top level, as id, inside params; each x dispatcher kind (sync / async / async serving plain functions) x max_batch_size in {None,0,1,n-1,n,n+1} x method '
         'behaviours (returns / raises protocol error / raises other). distinct = distinct (text, kind, max_batch_size); non-trivial '
         '= the text parses to an object or a non-empty array (is not rejected at parse time)')
 EXHAUSTIVE = {'quick': False, 'thorough': False}
@@ -49,6 +49,9 @@ def generate(seed, tier):
         for mb in sizes:
             for is_async in (False, True):
                 cases.append({'text': t, 'async': is_async, 'max_batch': mb})
+        if len(cases) % 3 == 0:
+            # the asynchronous dispatcher serving plain (non-coroutine) functions
+            cases.append({'text': t, 'async': 'plain', 'max_batch': None})
     return cases
 
 
